@@ -911,7 +911,57 @@ def r32_sliced_shape_contract(facts):
                 c.unk(inst, where, "operand shape %s and input_dimensions %s are different symbolic values" % (_fmt_term(shape), _fmt_term(in_t)))
     c.floor("single-operand sliced_op call sites", n_sites, 4)
     _sliced_flatten_guard(facts, c)
+    _sliced_depth_agreement(facts, c)
     return c
+
+
+def _sliced_depth_agreement(facts, c):
+    """a derivative closure that walks the adjoint back over the operand with sliced_op slices at the same depth as the forward call it belongs to
+    (the backward walk is the forward walk with input and output exchanged): the slice depth is the same value, not a function of the operand's rank"""
+    from .engine_rules import SLICED_OP
+    for b in facts.closures():
+        if not is_backward_closure(b):
+            continue
+        ctor = facts.body(b.get("root", b["def"]))
+        if ctor is None:
+            continue
+        env = {}
+        for nb in facts.nested(ctor):
+            env.update(_lets(facts, nb))
+        attach = [m for m in walk(facts.root(ctor)) if m.get("k") == "Call" and resolved(m) == SLICED_OP and len(m["args"]) >= 7
+                  and not (strip(m["args"][2]).get("k") == "Adt" and strip(m["args"][2]).get("variant") == "None")]
+        if len(attach) != 1:
+            continue
+        ps = [p for p in facts.params(b) if p.get("pat")]
+        cparam = ps[0]["pat"].get("v") if ps and ps[0]["pat"].get("k") == "Binding" else None
+        ctor_params = {v for p_ in facts.params(ctor) if p_.get("pat") for v, _, _, _ in F.pat_bindings(p_["pat"])}
+
+        def term(e, depth=0):
+            e = F.peel(e)
+            if isinstance(e, dict) and e.get("k") in ("VarRef", "UpvarRef") and depth < 6:
+                if e["v"] in env and e["v"] not in ctor_params:
+                    return term(env[e["v"]], depth + 1)
+                return ("var", e["v"])
+            return ("expr", e)
+        fwd = term(attach[0]["args"][5])
+        for nb in facts.nested(b):
+            for n in walk(facts.root(nb)):
+                if n.get("k") != "Call" or resolved(n) != SLICED_OP or len(n["args"]) < 7:
+                    continue
+                inst = "depth:%s" % b["def"]
+                where = F.loc(nb, n)
+                bwd = term(n["args"][5])
+                if fwd[0] == "var" and bwd == fwd:
+                    c.ok(inst, where, "the derivative slices at the forward call's depth (`%s`)" % str(fwd[1]).split("#")[0])
+                elif fwd[0] == "var" and fwd[1] in ctor_params and bwd[0] == "expr":
+                    names = {x["v"] for x in walk(bwd[1]) if x.get("k") in ("VarRef", "UpvarRef")}
+                    if names <= {cparam}:
+                        c.bad(inst, where, "the forward call slices its operand at depth `%s` (the caller's parameter) but the derivative walks the adjoint back at depth `%s`, a function of the "
+                              "operand's rank alone: whenever the two differ the adjoint of one slice is spread over several" % (str(fwd[1]).split("#")[0], show(bwd[1])[:50]))
+                    else:
+                        c.unk(inst, where, "the derivative's slice depth `%s` is not the forward call's `%s` in a form read here" % (show(bwd[1])[:50], str(fwd[1]).split("#")[0]))
+                elif fwd[0] == "var":
+                    c.unk(inst, where, "the derivative's slice depth is another variable than the forward call's `%s`" % str(fwd[1]).split("#")[0])
 
 
 def _sliced_flatten_guard(facts, c):
